@@ -45,17 +45,22 @@ class Count:
         pass
 
 
-_parser = [None]
+_parser = [None, None]
 
 
 def _reset():
     _parser[0] = None
+    _parser[1] = None
 
 
 runner.TASK_INIT.append(_reset)
 
 
-def parser():
+def parser(cached=False):
+    if cached:
+        if _parser[1] is None:
+            _parser[1] = snapshot.api().new_parser(parse_cache={})
+        return _parser[1]
     if _parser[0] is None:
         _parser[0] = snapshot.api().new_parser()
     return _parser[0]
@@ -83,7 +88,7 @@ def host_names(log, cnt):
             'x': D(1), 'l': [D(1), D(2), D(3)], 'd': {'a': D(1), 'b': D(2)}, 'n': D(3)}
 
 
-def run(text, budget, ast_names_spec=None):
+def run(text, budget, ast_names_spec=None, cached=False):
     """-> (outcome, value, names_view, effect_log, entries, charged)"""
     api = snapshot.api()
     cnt = Count()
@@ -94,7 +99,7 @@ def run(text, budget, ast_names_spec=None):
         kw['ast_names'] = build_ast_names(ast_names_spec)
     try:
         with opwrap.traced(cnt):
-            v = parser().eval(text, names, max_ops_evaluated=budget, **kw)
+            v = parser(cached).eval(text, names, max_ops_evaluated=budget, **kw)
         out = 'ok'
     except api.OpsLimit:
         out, v = 'limit', None
@@ -167,9 +172,9 @@ DRIVERS = [
 ]
 
 
-def sweep(res, label, text, ast_spec, swallow):
+def sweep(res, label, text, ast_spec, swallow, cached=False):
     api = snapshot.api()
-    base = run(text, 10 ** 9, ast_spec)
+    base = run(text, 10 ** 9, ast_spec, cached)
     out0, v0, n0, log0, K, charged0 = base
     res.count('programs')
     if out0 not in ('ok',) and not out0.startswith('other') and out0 != 'ParserError':
@@ -181,7 +186,7 @@ def sweep(res, label, text, ast_spec, swallow):
                       dict(w, budget='unbounded', expected=f'{K} charged to one VM state', observed=f'charged {charged0}'))
     res.outcome(f'{label}:K={K}')
     for N in list(range(1, K + 3)) + BIG:
-        out, v, n, log, entered, charged = run(text, N, ast_spec)
+        out, v, n, log, entered, charged = run(text, N, ast_spec, cached)
         res.count('evals')
         ww = dict(w, budget=N, K=K)
         want_log = [e for e in log0 if e[1] < N]
@@ -252,6 +257,7 @@ def work(task):
     if kind == 'driver':
         _, label, text, spec, sw = task
         sweep(res, label, text, spec, sw)
+        sweep(res, label + ':parse-cache', text, spec, sw, cached=True)
         res.sample({'program': text, 'budgets': 'every N in 1..K+2 and 10^6, 2^40'}, cap=1)
     elif kind == 'shape':
         _, label, tree, nested = task
@@ -306,7 +312,7 @@ def main(tier, seed, t0):
         'traces_validated_against_impl': n.get('evals', 0),
         'evaluations': n.get('evals', 0),
         'distinct_nontrivial': len(total.outcomes),
-        'rule': '%d hand-written drivers (direct / recursive / map / filter / reduce / sorted-key / host callback / swallowing callback / '
+        'rule': '%d hand-written drivers, each on a parser without and with a parse cache (direct / recursive / map / filter / reduce / sorted-key / host callback / swallowing callback / '
                 'ast_names lambdas / NoOp / statements / slices / lazy operators) and every construct shape of C09 (%s fillers), each under '
                 'EVERY budget 1..K+2 plus two large ones; all %d sequences of <= %d eval calls over a shared names mapping from a %d-call '
                 'alphabet, the last call under budgets K-1, K, K+1, K/2. distinct_nontrivial = distinct (program, K).'
